@@ -3,7 +3,9 @@
 Template directives (each on its own line, introduced by `//@@`):
 
   //@@ fn file=<path> [impl="impl X"] name=<fn> [ret=<ident>] [as=<new fn name>] [vis=keep|none]
-  //@@ slice file=<path> [impl="impl X"] name=<fn> (block=/re/ | start=/re/ end=/re/) [inner=1]
+  //@@ slice file=<path> [impl="impl X"] name=<fn> (block=/re/ | start=/re/ (end=/re/ | endblock=/re/))
+        block: the inside of the {..} that follows the match; start..end: whole lines from the start match to
+        the end match; endblock: ... to the end of the {..} block that follows the end match
   //@@ sig <verus signature line(s) for a slice>          (slice only; may repeat)
   //@@ rw /regex/ => replacement [n=<count>|n=+|n=*]      (applied to the extracted body)
   //@@ sigrw /regex/ => replacement [n=..]                 (applied to the extracted signature)
@@ -141,8 +143,19 @@ class Gen:
             d = st[4:].strip()
             head, _, rest = d.partition(" ")
             if head == "include":
-                inc = os.path.join(os.path.dirname(template_path), rest.strip())
-                out.extend(self.expand(inc))
+                parts = rest.split()
+                inc = os.path.join(os.path.dirname(template_path), parts[0])
+                n_items = len(self.items)
+                sub = self.expand(inc)
+                for it in self.items[n_items:]:
+                    it["gen_lo"] += len(out)
+                    it["gen_hi"] += len(out)
+                for opt in parts[1:]:
+                    if opt.startswith("prefix="):
+                        # obligations of an included file are re-proved in this unit under a prefixed name
+                        pre = opt[len("prefix="):]
+                        sub = [re.sub(r"(//\s*@ob\s+)", r"\g<1>" + pre + "/", l) for l in sub]
+                out.extend(sub)
                 i += 1
             elif head == "check-struct" or head == "check-enum":
                 self.check_type(head, parse_kv(rest))
@@ -251,8 +264,8 @@ class Gen:
                 c = rsx.match_brace(mb, k)
                 a, b = k + 1, c
             else:
-                ps = re.compile(kv["start"].strip("/"), re.S)
-                pe = re.compile(kv["end"].strip("/"), re.S)
+                ps = re.compile(kv["start"].strip("/"), re.S | re.M)
+                pe = re.compile(kv.get("end", kv.get("endblock", "")).strip("/"), re.S | re.M)
                 ms = list(ps.finditer(mb))
                 if len(ms) != 1:
                     raise ExtractError("%s: start anchor /%s/ matched %d times" % (where, ps.pattern, len(ms)))
@@ -261,8 +274,15 @@ class Gen:
                 if not me:
                     raise ExtractError("%s: end anchor /%s/ not found after start" % (where, pe.pattern))
                 e = me[0]
-                b = mb.find("\n", e.end())
-                b = len(mb) if b < 0 else b
+                if "endblock" in kv:
+                    # the range ends with the brace-matched block that follows the end anchor
+                    k = mb.find("{", e.end() - 1 if mb[e.end() - 1] == "{" else e.end())
+                    if k < 0:
+                        raise ExtractError("%s: no block after end anchor" % where)
+                    b = rsx.match_brace(mb, k) + 1
+                else:
+                    b = mb.find("\n", e.end())
+                    b = len(mb) if b < 0 else b
             body = sb[a:b]
             mbody = mb[a:b]
             if not sec["sig"]:
